@@ -275,6 +275,9 @@ func TestVerifConfig(t *testing.T) {
 		p1, p2 := map[uintptr]bool{}, map[uintptr]bool{}
 		cfgPointers(reflect.ValueOf(caller.ApiConfig), p1, 0)
 		cfgPointers(reflect.ValueOf(gb.cfg.ApiConfig), p2, 0)
+		for _, a := range gb.methodCfg { // the method table is part of what the balancer keeps
+			cfgPointers(reflect.ValueOf(a), p2, 0)
+		}
 		aliased := 0
 		for p := range p1 {
 			if p2[p] {
